@@ -896,7 +896,8 @@ class PDFFont:
             self.default_width = num_value(descriptor.get("MissingWidth", 0))
         else:
             self.default_width = default_width
-        self.default_width = resolve1(self.default_width)
+        # a number, possibly indirect; anything else counts as 0
+        self.default_width = num_value(self.default_width)
         self.leading = num_value(descriptor.get("Leading", 0))
         self.bbox = self._parse_bbox(descriptor)
         self.hscale = self.vscale = 0.001
